@@ -382,6 +382,74 @@ func c19R3(c *Ctx) {
 			c.Check(w == nil, "C19.R3", "instance limits are verified against the running instance type (or fetched fresh) before use", p.Pos(s.Node), il.Key(), "must-pass (ECS path): (annotation type id == metadata type | provider.GetLimit) → b.limit = limit", "path: "+p.describePath(w))
 		}
 		c.Floor("C19.R3", "ECS-path stores of the instance limits", 1, m)
+		// value flow: what is stored is the variable that was verified or refreshed — from the
+		// definition of the stored variable by the annotation reader, every ECS path to the store
+		// either re-assigns that same variable (a refresh into a shadowing `limit, err :=` does not
+		// count) or leaves a test "it is nil / its type id equals the metadata type" on the good edge
+		for _, s := range stores {
+			v := identObj(iinfo, s.RHS)
+			if v == nil {
+				continue
+			}
+			q0 := NewPathQuery(p, il, nil)
+			q0.Prune = efloEdge
+			if q0.Escapes(nil, isExactly(s.Node), nil, nil) == nil {
+				continue // reached on the EFLO path only
+			}
+			var annoDef ast.Node
+			for _, cs := range p.CallsIn(il) {
+				if cs.Callee != nil && cs.Callee.Name() == "GetLimitFromAnno" && cs.Lit == nil {
+					if as, lhs := assignedFromCall(il, cs.Call); as != nil && len(lhs) >= 1 && lhs[0] == v {
+						annoDef = as
+					}
+				}
+			}
+			if annoDef == nil {
+				continue
+			}
+			var good func(e ast.Expr, edge bool) bool
+			good = func(e ast.Expr, edge bool) bool {
+				e = ast.Unparen(e)
+				switch t := e.(type) {
+				case *ast.UnaryExpr:
+					if t.Op == token.NOT {
+						return good(t.X, !edge)
+					}
+				case *ast.BinaryExpr:
+					switch t.Op {
+					case token.LAND:
+						if edge {
+							return good(t.X, true) || good(t.Y, true)
+						}
+						return good(t.X, false) && good(t.Y, false)
+					case token.LOR:
+						if edge {
+							return good(t.X, true) && good(t.Y, true)
+						}
+						return good(t.X, false) || good(t.Y, false)
+					case token.EQL, token.NEQ:
+						isV := func(x ast.Expr) bool { return identObj(iinfo, x) == v }
+						isNil := func(x ast.Expr) bool { return iinfo.Types[ast.Unparen(x)].IsNil() }
+						isTypeID := func(x ast.Expr) bool {
+							sel, ok := ast.Unparen(x).(*ast.SelectorExpr)
+							return ok && sel.Sel.Name == "InstanceTypeID" && identObj(iinfo, sel.X) == v
+						}
+						eqEdge := (t.Op == token.EQL) == edge
+						if (isV(t.X) && isNil(t.Y)) || (isV(t.Y) && isNil(t.X)) || isTypeID(t.X) || isTypeID(t.Y) {
+							return eqEdge
+						}
+					}
+				}
+				return false
+			}
+			q := NewPathQuery(p, il, nil)
+			q.Prune = func(cond ast.Expr, takeTrue bool) bool {
+				return efloEdge(cond, takeTrue) || good(cond, takeTrue)
+			}
+			reassign := assignsVar(iinfo, v)
+			w := q.Escapes(isExactly(annoDef), isExactly(s.Node), func(k ast.Node) bool { return !isExactly(annoDef)(k) && reassign(k) }, nil)
+			c.Check(w == nil, "C19.R3", "the stored limits are the verified or refreshed variable", p.Pos(s.Node), il.Key(), "from limit := GetLimitFromAnno(…) every ECS path to b.limit = limit re-assigns limit or passes `limit == nil` / `limit.InstanceTypeID == <metadata type>`", "path: "+p.describePath(w))
+		}
 		// a metadata failure aborts (the comparison cannot be skipped by an error): with the error of
 		// GetInstanceType non-nil — followed through copies into other error variables — no store of
 		// the limits is reachable
